@@ -1210,17 +1210,46 @@ func (c *Ctx) isFillLoop(fi *FuncInfo, l *Loop) bool {
 
 func (c *Ctx) isWrapLoop(fi *FuncInfo, l *Loop) bool {
 	n := 0
+	var rf *ssa.Call
 	for b := range l.Blocks {
 		for _, in := range b.Instrs {
 			if call, ok := in.(*ssa.Call); ok && call.Call.IsInvoke() {
 				switch call.Call.Method.Name() {
-				case "Parse", "ReadFrom":
+				case "Parse":
 					n++
+				case "ReadFrom":
+					n++
+					rf = call
 				}
 			}
 		}
 	}
-	return n >= 2
+	if n < 2 || rf == nil {
+		return false
+	}
+	// the premise the template quotes: every way round the loop has read something (count of ReadFrom ≠ 0 on
+	// the back edge); a way round without it repeats Parse → ErrEmptyBuffer → ReadFrom for ever when the reader
+	// keeps answering with an error and no data
+	k := extractOf(rf, 0)
+	if k == nil {
+		return false
+	}
+	for _, la := range l.Latches {
+		okK := false
+		for _, f := range fi.factsOf(fi.edgeConds(la, l.Header)) {
+			if len(f.L.t) == 1 {
+				if co := f.L.t[k.Name()]; co != 0 {
+					if (f.Op == NE && f.L.c == 0) || (f.Op == LE && co == -1 && f.L.c >= 1) {
+						okK = true
+					}
+				}
+			}
+		}
+		if !okK {
+			return false
+		}
+	}
+	return true
 }
 
 // isBitClearLoop: for x != 0 { …; x &^= 1 << i }.
